@@ -87,14 +87,14 @@ type outCall struct {
 }
 
 type evRec struct {
-	kind   string
-	addr   string
-	id     string
-	req    string
-	tx     uint64
-	sid    uint32
-	seq    uint64
-	err    error
+	kind string
+	addr string
+	id   string
+	req  string
+	tx   uint64
+	sid  uint32
+	seq  uint64
+	err  error
 }
 
 type logRec struct {
@@ -445,14 +445,14 @@ func (l *wTraffic) UntraceStream(stream server.HyStream)                        
 // rawConn is a hand-driven QUIC + HTTP/3 connection to the server: it can send any request,
 // open raw streams and send datagrams in any order, authenticated or not.
 type rawConn struct {
-	w     *wWorld
-	idx   int
-	ep    *simnet.Endpoint
-	tr    *quic.Transport
-	qc    *quic.Conn
-	h3    *http3.Transport
-	cc    *http3.ClientConn
-	local string
+	w      *wWorld
+	idx    int
+	ep     *simnet.Endpoint
+	tr     *quic.Transport
+	qc     *quic.Conn
+	h3     *http3.Transport
+	cc     *http3.ClientConn
+	local  string
 	dgrams [][]byte // datagrams received from the server
 	dgDone chan struct{}
 }
